@@ -52,6 +52,8 @@ def _leaf():
                        '𝄞', ' ']),
       st.sampled_from([{'$cls': 'P'}, {'$cls': 'Typed'}, {'$cls': 'int'}, {'$fn': 'module'}, {'$fn': 'lambda'}]),
       st.sampled_from([{'$o': 'Req', 'a': {}}, {'$o': 'Req', 'a': {'r': 2}}]),
+      st.sampled_from([{'$o': 'DV', 'a': {'d': {'$d': [['k', 1], ['u1', 5], ['u2', 6]]}}}, {'$o': 'DV', 'a': {'f': {'$d': [['a', 1], ['b', 1]]}}},
+                       {'$o': 'DV', 'a': {'d': {'$d': [['u9', 5]]}, 'f': {'$d': [['q', 1]]}}}]),
       st.sampled_from([{'$dna': 1}, {'$dna': [0, 1]}, {'$dna': [{'$t': [0, [1, 0.5]]}, 2]}, {'$dna': None}]),
       st.builds(lambda s: {'$spec': s}, specs.spec_strategy(max_leaves=3, objects=False)),
       st.sampled_from([{'$dnaspec': 'oneof'}, {'$dnaspec': 'manyof'}, {'$dnaspec': 'space'}, {'$dnaspec': 'float'}]),
@@ -274,6 +276,8 @@ def _value_case(case, res):
   routes = []
   routes.append(('json', lambda: pg.from_json(pg.to_json(v), allow_partial=True)))
   routes.append(('json_str', lambda: pg.from_json_str(pg.to_json_str(v), allow_partial=True)))
+  if isinstance(v, pg.Symbolic):
+    routes.append(('json_hide_default', lambda: pg.from_json(pg.to_json(v, hide_default_values=True), allow_partial=True)))
   routes.append(('deepcopy', lambda: copy.deepcopy(v)))
   if not feats.get('$fn') or True:
     routes.append(('pickle', lambda: pickle.loads(pickle.dumps(v))))
@@ -290,7 +294,7 @@ def _value_case(case, res):
     if snap(v) != base:
       return res.violate('%s modified the original value' % name, law='roundtrip-mutates', route=name, **sig)
     want_type = type(v)
-    if name in ('json', 'json_str') and not isinstance(v, pg.Symbolic):
+    if name in ('json', 'json_str', 'json_hide_default') and not isinstance(v, pg.Symbolic):
       # plain containers come back as symbolic ones (documented); tuples stay tuples
       if isinstance(v, list):
         want_type = pg.List
